@@ -1,20 +1,86 @@
 (* C07 — pinned statements.  (1) the declared size interval contains the number of rows of every
-   execution, by induction over the relation, on the shapes for which Join::size is sound;
-   (2) Join::size is NOT sound for outer joins carrying a unique flag (refuted, known finding);
+   execution, by induction over the relation: Map (LIMIT / OFFSET), Reduce (grouped, or one row without
+   GROUP BY even on an empty input), Join (inner / cross / outer, with the rows an outer join preserves),
+   set operations; the one hypothesis left, join_ok, excludes outer joins whose unique flag sits on a
+   preserved side, for which (2) Join::size is NOT sound (refuted, known finding: the repository's own
+   test pins max(left, right) for them);
    (3) the schema of a Map: every projected value of a row that passes the filter lies in the type
    the Map declares for it (integer columns; from the C10 and C06 theorems). *)
 From QV Require Import Intervals.Model Intervals.Proofs Fn.IntExpr Fn.IntExprProofs Expr.Filter Expr.FilterProofs.
-From QV Require Import Rel.Size Rel.SizeProofs.
+From QV Require Import Rel.Size Rel.SizeProofs Rel.Rows Rel.RowsProofs Rel.Eval Rel.EvalProofs Rel.Cols Rel.ColsProofs.
 Open Scope Z_scope.
 
 Theorem C07_size_sound_partial : forall e m,
-  sizes_ok e = true -> join_ok e = true -> reduce_ok e = true ->
+  sizes_ok e = true -> join_ok e = true ->
   card e m -> fst (size_of (skeleton e)) <= m <= snd (size_of (skeleton e)).
 Proof. exact size_sound. Qed.
 
+(* without unique flags there is no hypothesis on the shape at all *)
+Theorem C07_size_sound_no_unique_flag : forall e m,
+  sizes_ok e = true -> no_flags e = true ->
+  card e m -> fst (size_of (skeleton e)) <= m <= snd (size_of (skeleton e)).
+Proof. exact size_sound_no_flags. Qed.
+
 Theorem C07_join_size_outer_refuted : exists e m,
-  sizes_ok e = true /\ reduce_ok e = true /\ card e m /\ snd (size_of (skeleton e)) < m.
+  sizes_ok e = true /\ card e m /\ snd (size_of (skeleton e)) < m.
 Proof. exact join_size_outer_refuted. Qed.
+
+(* (4) joins at row level (Rel/Rows.v): the bag a join of each kind returns has a number of rows that
+   meets the premises of [card] — the abstract cardinality semantics is derived, for joins, from rows:
+   a unique flag on the right (left) key is read as "every left (right) row has at most one match" *)
+Theorem C07_join_rows_card : forall k (ul ur : bool) el er P nl nr L R,
+  card el (Z.of_nat (length L)) -> card er (Z.of_nat (length R)) ->
+  (ur = true -> forall l, In l L -> (length (filter (P l) R) <= 1)%nat) ->
+  (ul = true -> forall r, In r R -> (length (filter (fun l => P l r) L) <= 1)%nat) ->
+  Z.of_nat (length (join_rows P k nl nr L R)) <= i64_max ->
+  card (EJoin k ul ur el er) (Z.of_nat (length (join_rows P k nl nr L R))).
+Proof. exact join_rows_card. Qed.
+
+(* (5) Join::schema: every row a join returns lies in the schema it declares — the padded side of an
+   outer join optional, the side narrowed by the ON condition narrowed (the narrowing itself is sound by
+   the C10 theorem; here it is the hypothesis on fl / fr) *)
+Theorem C07_join_rows_typed : forall k P sl sr fl fr L R,
+  Forall (fun l => row_in l sl = true) L -> Forall (fun r => row_in r sr = true) R ->
+  (forall l r, In l L -> In r R -> P l r = true -> row_in l fl = true /\ row_in r fr = true) ->
+  length fl = length sl -> length fr = length sr ->
+  Forall (fun x => row_in x (join_schema k sl sr fl fr) = true) (join_rows P k (length sl) (length sr) L R).
+Proof. exact join_rows_typed. Qed.
+
+(* non-vacuity: users LEFT JOIN orders on the key; one user without order is padded with NULLs *)
+Example C07_example_rows :
+  let P := fun l r : list (option Z) => match nth 0 l None, nth 0 r None with Some a, Some b => a =? b | _, _ => false end in
+  let L := [[Some 1; Some 20]; [Some 2; Some 30]] in let R := [[Some 1; Some 7]; [Some 1; Some 8]] in
+  join_rows P JLeft 2 2 L R = [[Some 1; Some 20; Some 1; Some 7]; [Some 1; Some 20; Some 1; Some 8]; [Some 2; Some 30; None; None]].
+Proof. vm_compute. reflexivity. Qed.
+
+(* (6) the size half of the property on executions: a row-level evaluator of relational expressions over
+   concrete conforming tables (filters and projections as arbitrary functions, LIMIT / OFFSET windows,
+   grouping, the five join kinds with NULL padding, UNION / EXCEPT / INTERSECT with and without ALL)
+   returns a number of rows inside the declared size interval; [wf] says: tables conform to their sizes,
+   windows are non-negative, a unique flag means at most one match, counts fit in an i64 *)
+Theorem C07_eval_size_sound : forall e, wf e -> sizes_ok (erase e) = true -> join_ok (erase e) = true ->
+  fst (size_of (skeleton (erase e))) <= Z.of_nat (length (rows_of e)) <= snd (size_of (skeleton (erase e))).
+Proof. exact eval_size_sound. Qed.
+
+(* (7) on the column-level fragment (arbitrary filters, column selections, windows, equi-joins of the five
+   kinds with any further condition, single-key grouping, COUNT, set operations) the hypotheses are on the
+   base data only: tables conform to their sizes and honour their unique constraints ([wfu], [wfs]); that a
+   flagged join key gives at most one match is proved, not assumed.  This is the fragment the harness
+   writes from the same tree as the SQL it executes on SQLite (Corr/Eval.v) *)
+Theorem C07_fragment_size_sound : forall e, wfu e -> wfs e ->
+  sizes_ok (erase (to_rexp e)) = true -> join_ok (erase (to_rexp e)) = true ->
+  fst (size_of (skeleton (erase (to_rexp e)))) <= Z.of_nat (length (rows_c e)) <= snd (size_of (skeleton (erase (to_rexp e)))).
+Proof. exact cexp_size_sound. Qed.
+
+(* non-vacuity: (users LEFT JOIN orders ON the key) LIMIT 2, then COUNT without GROUP BY *)
+Example C07_example_eval :
+  let P := fun l r : list (option Z) => match nth 0 l None, nth 0 r None with Some a, Some b => a =? b | _, _ => false end in
+  let users := XTable (0, 30) [[Some 1; Some 20]; [Some 2; Some 30]] in
+  let orders := XTable (0, 60) [[Some 1; Some 7]; [Some 1; Some 8]] in
+  let e := XReduce None (fun rows => [Some (Z.of_nat (length rows))])
+             (XMap (fun _ => true) (fun r => r) (Some 2) None (XJoin JLeft false false P 2 2 users orders)) in
+  rows_of e = [[Some 2]] /\ size_of (skeleton (erase e)) = (0, 2) /\ sizes_ok (erase e) = true /\ join_ok (erase e) = true.
+Proof. vm_compute. repeat split. Qed.
 
 Lemma cap_ok2 : (2 < CAP)%nat. Proof. unfold CAP. lia. Qed.
 
@@ -36,10 +102,29 @@ Qed.
 (* non-vacuity: orders LEFT JOIN users (unique key on the right side) limited to 10 rows *)
 Example C07_example :
   let e := EMap (Some 10) (Some 2) (EJoin JLeft false true (ETable (0, 60)) (ETable (0, 30))) in
-  sizes_ok e = true /\ join_ok e = true /\ reduce_ok e = true /\ size_of (skeleton e) = (0, 10).
+  sizes_ok e = true /\ join_ok e = true /\ size_of (skeleton e) = (0, 10).
 Proof. vm_compute. repeat split. Qed.
+
+(* an aggregation without GROUP BY over an input declared empty, FULL JOINed with a one-row relation *)
+Example C07_example_degenerate :
+  let e := EJoin JFull false false (EReduce false (EMap (Some 0) None (ETable (0, 30)))) (EMap (Some 1) None (ETable (0, 60))) in
+  sizes_ok e = true /\ no_flags e = true /\ size_of (skeleton e) = (0, 2) /\ card e 2.
+Proof.
+  cbn zeta. split; [reflexivity|]. split; [reflexivity|]. split; [reflexivity|].
+  apply (CJoin JFull false false _ _ 1 1 2).
+  - apply (CReduceU _ 0). apply (CMap (Some 0) None _ 0 0); [constructor; cbn; lia|lia|cbn; lia|intros x Hx; injection Hx as <-; lia].
+  - apply (CMap (Some 1) None _ 1 1); [constructor; cbn; lia|lia|cbn; lia|intros x Hx; injection Hx as <-; lia].
+  - lia.
+  - unfold i64_max. lia.
+  - exists 0, 1, 1. repeat split; try lia; intros; discriminate.
+Qed.
 
 Check C07_size_sound_partial.
 Print Assumptions C07_size_sound_partial.
+Print Assumptions C07_size_sound_no_unique_flag.
 Print Assumptions C07_join_size_outer_refuted.
 Print Assumptions C07_map_row_typed.
+Print Assumptions C07_join_rows_card.
+Print Assumptions C07_join_rows_typed.
+Print Assumptions C07_eval_size_sound.
+Print Assumptions C07_fragment_size_sound.
